@@ -4,7 +4,7 @@
     builder served by the generic StatelessTransformer; [venue_symbol] / [venue_channel] are the
     venues' conventions, independent of the code's [market_of] / [channel_of]. *)
 From Coq Require Import String List ZArith NArith.
-From BV Require Import Base.Common Model.SubId Proofs.SubId Corr.C13 Proofs.SubIdOracle.
+From BV Require Import Base.Common Model.SubId Proofs.SubId Corr.C13 Proofs.SubIdOracle Proofs.SubIdL2.
 Import ListNotations.
 Local Open Scope string_scope.
 
@@ -152,6 +152,39 @@ Theorem C13_support_oracle_sound :
   (forall b, batch_corr b = true -> batch_prop b = true).
 Proof. exact support_oracle_sound. Qed.
 Print Assumptions C13_support_oracle_sound.
+
+(** BINANCE ORDER BOOKS L2 (spot and USD futures).  With pairwise distinct venue symbols and a
+    successfully initialised transformer: the first depth update for the market of subscribed
+    instrument [s] that is valid, per the venue rule, against the snapshot fetched for [s]
+    yields exactly one update event carrying the key of [s], the connector's exchange id, the
+    message's event time, sequence = u, engine time (futures) and levels. *)
+Theorem C13_l2_attributed : forall e subs snaps t s l m,
+  In s subs -> strikes_plain subs -> distinct_l2_symbols e subs ->
+  l2_init e subs snaps = Some t ->
+  snap_of snaps (fst s) = Some (fst s, l) ->
+  l_sym m = venue_symbol e (snd s) ->
+  first_update_valid e l m = true ->
+  snd (l2_transform e t m) = L2Out [l2_event e (fst s) m].
+Proof. exact l2_attributed. Qed.
+Print Assumptions C13_l2_attributed.
+
+(** a depth update for a market no subscribed instrument has: unidentifiable, table unchanged *)
+Theorem C13_l2_rejected : forall e subs snaps t m,
+  strikes_plain subs -> l2_init e subs snaps = Some t ->
+  (forall s, In s subs -> venue_symbol e (snd s) <> l_sym m) ->
+  l2_transform e t m = (t, L2Out [L2Unident (sub_id l2_channel (l_sym m))]).
+Proof. exact l2_rejected. Qed.
+Print Assumptions C13_l2_rejected.
+
+(** over ANY sequence of depth updates after ANY successful init: every emitted event carries
+    the connector's exchange id and the key of the subscription whose id the update names *)
+Theorem C13_l2_never_another : forall e subs snaps t ms,
+  l2_init e subs snaps = Some t ->
+  Forall2 (fun m o => forall l k ex te sq ten bs as_, o = L2Out l -> In (L2Ev k ex te sq ten bs as_) l ->
+             ex = e /\ exists s, In s subs /\ fst s = k /\ l2_sid e s = sub_id l2_channel (l_sym m))
+          ms (l2_run e t ms).
+Proof. intros e subs snaps t ms H. apply l2_run_never_another. exact (l2_init_keys_ok _ _ _ _ H). Qed.
+Print Assumptions C13_l2_never_another.
 
 (** Non-vacuity: concrete subscription sets satisfy the hypotheses (similar prefixes, mixed
     case, a dated future at the turn of the year, a Bitfinex confirmation table) and the
